@@ -313,5 +313,9 @@ func Sidx(off, i *Term) *Term {
 	if off.Kind == kLit && off.Op == "0" {
 		return i
 	}
+	// sub-slice of a slice: fold the added offset into the index so that both views index the same atomic offset
+	if off.Kind == kApp && off.Op == "+" && len(off.Args) == 2 && off.Sort == SInt {
+		return Sidx(off.Args[0], Arith("+", off.Args[1], i))
+	}
 	return App("sidx", SInt, off, i)
 }
